@@ -234,7 +234,7 @@ DEPTH_ALL = 4095
 GENERIC = {"unm_any", "unm_any_std", "dec_decode", "dec_usenumber", "dec_useint64"}
 # destinations of `valid typed`, in the order of c02TDests (go/harness/ops_json.go); two flags each: default, std
 TYPED = ["struct", "pstruct", "slice", "array", "map", "mapstruct", "slice2", "slicestruct", "sliceany", "mapany",
-         "int", "string", "bool", "float"]
+         "int", "string", "bool", "float", "any"]
 REF_LIMIT = 10000   # encoding/json scanner: maxNestingDepth
 
 
@@ -349,6 +349,8 @@ class C02(Spec):
             Stream("malformed", "c02.malformed", 600 if q else 80000, envs=envs, timeout=0.05),
             Stream("unterminated", "c02.unterminated", 100 if q else 5000, envs=envs, timeout=0.05),
             Stream("junk", "c02.junk", 0, envs=envs, timeout=0.05),
+            # history independence: (prev, doc) pairs, also under the alternative decoder (pooled parser state)
+            Stream("wsseq", "c02.wsseq", 0, envs={"default": {}, "optdec": {"SONIC_USE_OPTDEC": "1"}}, timeout=0.05),
             Stream("deep", "c02.deep", 0, envs=envs, timeout=20.0),
         ]
 
